@@ -691,6 +691,93 @@ fn family_convert() {
     rep.finish();
 }
 
+// ---- C13: serializer ------------------------------------------------------------------------------------------------------
+mod ser_cases {
+    use serde::Serialize;
+    use std::collections::{BTreeMap, HashMap};
+    #[derive(Serialize)] pub struct Unit;
+    #[derive(Serialize)] pub struct New(pub u32);
+    #[derive(Serialize)] pub struct Tup(pub u8, pub String);
+    #[derive(Serialize)] pub struct St { pub a: u8, pub b: Option<bool>, pub c: Vec<i64>, pub d: Inner }
+    #[derive(Serialize)] pub struct Inner { pub x: f64, pub e: En }
+    #[derive(Serialize)] pub enum En { U, N(u16), T(u8, bool), S { k: i8 } }
+    #[derive(Serialize)] pub struct Big { pub v: u128 }
+    pub struct Fails;
+    impl Serialize for Fails {
+        fn serialize<S: serde::Serializer>(&self, _s: S) -> Result<S::Ok, S::Error> { Err(serde::ser::Error::custom("boom")) }
+    }
+    #[derive(Serialize)] pub struct HasFails { pub ok: u8, pub bad: Fails }
+    pub fn int_key_map() -> BTreeMap<u8, u8> { [(1u8, 2u8)].into_iter().collect() }
+    pub fn str_key_map() -> HashMap<String, i32> { [("k".to_string(), -5)].into_iter().collect() }
+}
+
+fn family_ser() {
+    use reval::value::ser::ValueSerializer;
+    use serde::Serialize;
+    use ser_cases::*;
+    let mut rep = Report::new("ser");
+    fn map(items: Vec<(&str, Value)>) -> Value { Value::Map(items.into_iter().map(|(k, v)| (k.to_string(), v)).collect()) }
+    macro_rules! case {
+        ($what:expr, $v:expr, $expect:expr) => {{
+            rep.cases += 1;
+            let expect: Result<Value, ()> = $expect;
+            let r = catch_unwind(AssertUnwindSafe(|| $v.serialize(ValueSerializer)));
+            match (r, &expect) {
+                (Err(_), _) => rep.fail(&["C13"], "ser.panic", $what, "PANIC", &format!("{expect:?}")),
+                (Ok(Ok(v)), Ok(e)) if same_value(&v, e) => {}
+                (Ok(Err(_)), Err(())) => {}
+                (Ok(o), _) => rep.fail(&["C13"], "ser.image", $what, &format!("{:?}", o.map_err(|e| e.to_string())), &format!("{expect:?}")),
+            }
+        }};
+    }
+    macro_rules! ints { ($($t:ty),*) => {$(
+        for x in [<$t>::MIN, <$t>::MAX, 0 as $t, 1 as $t] {
+            let fits = (x as i128 as $t) == x && ((x as i128) >= 0 || <$t>::MIN != 0);
+            case!(&format!("{}::{x}", stringify!($t)), x, if fits { Ok(Value::Int(x as i128)) } else { Err(()) });
+        }
+    )*}; }
+    ints!(i8, i16, i32, i64, i128, u8, u16, u32, u64);
+    for x in [0u128, 1, i128::MAX as u128, i128::MAX as u128 + 1, u128::MAX] {
+        case!(&format!("u128::{x}"), x, if x <= i128::MAX as u128 { Ok(Value::Int(x as i128)) } else { Err(()) });
+        case!(&format!("Big{{v:{x}}}"), Big { v: x }, if x <= i128::MAX as u128 { Ok(map(vec![("v", Value::Int(x as i128))])) } else { Err(()) });
+    }
+    for x in [0.0f64, -0.0, 1.5, f64::NAN, f64::INFINITY, f64::NEG_INFINITY, f64::MAX, f64::MIN_POSITIVE] { case!(&format!("f64 {x}"), x, Ok(Value::Float(x))); }
+    for x in [0.0f32, -0.0, 1.5, f32::NAN, f32::INFINITY, f32::MAX, f32::MIN_POSITIVE, 0.1] { case!(&format!("f32 {x}"), x, Ok(Value::Float(x as f64))); }
+    case!("true", true, Ok(Value::Bool(true)));
+    case!("char", 'é', Ok(Value::String("é".into())));
+    case!("str", "a\"b", Ok(Value::String("a\"b".into())));
+    case!("unit", (), Ok(Value::None));
+    case!("None", Option::<u8>::None, Ok(Value::None));
+    case!("Some(Some(3))", Some(Some(3u8)), Ok(Value::Int(3)));
+    case!("Unit struct", Unit, Ok(Value::None));
+    case!("newtype", New(7), Ok(Value::Int(7)));
+    case!("tuple struct", Tup(1, "x".into()), Ok(Value::Vec(vec![Value::Int(1), Value::String("x".into())])));
+    case!("tuple", (1u8, "x", false), Ok(Value::Vec(vec![Value::Int(1), Value::String("x".into()), Value::Bool(false)])));
+    case!("seq order", vec![3i32, 1, 2], Ok(Value::Vec(vec![Value::Int(3), Value::Int(1), Value::Int(2)])));
+    case!("empty seq", Vec::<u8>::new(), Ok(Value::Vec(vec![])));
+    case!("bytes", serde_bytes_like(), Ok(Value::Vec(vec![Value::Int(0), Value::Int(255)])));
+    case!("nested struct", St { a: 1, b: None, c: vec![-1, 2], d: Inner { x: 0.5, e: En::S { k: -3 } } },
+          Ok(map(vec![("a", Value::Int(1)), ("b", Value::None), ("c", Value::Vec(vec![Value::Int(-1), Value::Int(2)])),
+                      ("d", map(vec![("x", Value::Float(0.5)), ("e", map(vec![("S", map(vec![("k", Value::Int(-3))]))]))]))])));
+    case!("unit variant", En::U, Ok(Value::String("U".into())));
+    case!("newtype variant", En::N(9), Ok(map(vec![("N", Value::Int(9))])));
+    case!("tuple variant", En::T(1, true), Ok(map(vec![("T", Value::Vec(vec![Value::Int(1), Value::Bool(true)]))])));
+    case!("struct variant", En::S { k: 4 }, Ok(map(vec![("S", map(vec![("k", Value::Int(4))]))])));
+    case!("string-keyed map", str_key_map(), Ok(map(vec![("k", Value::Int(-5))])));
+    case!("int-keyed map", int_key_map(), Err(()));
+    case!("failing Serialize", Fails, Err(()));
+    case!("failing field", HasFails { ok: 1, bad: Fails }, Err(()));
+    case!("failing element", vec![Some(Big { v: 1 }), Some(Big { v: u128::MAX })], Err(()));
+    rep.finish();
+}
+fn serde_bytes_like() -> impl serde::Serialize {
+    struct B;
+    impl serde::Serialize for B {
+        fn serialize<S: serde::Serializer>(&self, s: S) -> Result<S::Ok, S::Error> { s.serialize_bytes(&[0u8, 255]) }
+    }
+    B
+}
+
 fn main() {
     std::panic::set_hook(Box::new(|_| {})); // panics are caught and reported as failing cases
     let args: Vec<String> = std::env::args().skip(1).collect();
@@ -702,6 +789,7 @@ fn main() {
             "ruleset" => family_ruleset(),
             "builder" => family_builder(),
             "convert" => family_convert(),
+            "ser" => family_ser(),
             other => eprintln!("unknown family {other}"),
         }
     }
